@@ -241,7 +241,7 @@ def judge(prop, case, acc):
         acc.violation(key, msg, case)
 
 
-def _exhaustive_layer(tier, shard, nshards, acc):
+def _exhaustive_layer(tier, shard, nshards, acc, budget=None):
     """small-scope layer: every forest on <=4 tasks x every set of <=3 (quick) / <=4 (thorough) links x every assignment of the
     durations {0, 0.1, 0.2, 0.3} to the leaves (summaries get a junk estimate) -- all ties between parallel chains whose
     decimal lengths are equal but whose float sums differ (0.1+0.2 vs 0.3) are in there"""
@@ -256,6 +256,10 @@ def _exhaustive_layer(tier, shard, nshards, acc):
             continue
         if sched.effective_cycle([{'parent': p_} for p_ in parents], [list(x) for x in links]):
             continue      # C12 quantifies over acyclic WBSs
+        if budget is not None and budget.overdue():
+            acc.count('exhaustive_layer_truncated')
+            acc.inconclusive.append('exhaustive small-scope layer not completed within three times the shard budget')
+            return
         for combo in itertools.product(vals, repeat=len(leaves)):
             k += 1
             if k % nshards != shard:
@@ -272,7 +276,7 @@ def _exhaustive_layer(tier, shard, nshards, acc):
 
 def run_shard(prop, tier, seed, shard, nshards, budget, acc):
     idx = 0
-    _exhaustive_layer(tier, shard, nshards, acc)
+    _exhaustive_layer(tier, shard, nshards, acc, budget)
     while budget.more():
         rnd = core.case_rng(seed, shard, idx, 'cp')
         idx += 1
